@@ -69,3 +69,11 @@ NATIVE['n_c04_metadata'] = dict(
     bound='3 straight-line functions + fib_gas + hash_chain_gas; single tamperings of the honest metadata',
     functions=[('crates/cairo-lang-sierra-to-casm/src/compiler.rs', None, 'validate_metadata')],
 )
+NATIVE['n_c04_casm_steps'] = dict(
+    crate='cairo-lang-sierra-to-casm',
+    host='crates/cairo-lang-sierra-to-casm/src/compiler.rs',
+    harness='native/cairo-lang-sierra-to-casm/n_c04_casm_steps.rs',
+    props={'C04'},
+    bound='Sierra corpus (as n_c17_casm_paths): every start-to-exit path of the code emitted for every invocation statement with a statement-independent cost',
+    functions=[('crates/cairo-lang-sierra-to-casm/src/compiler.rs', None, 'compile')],
+)
